@@ -352,6 +352,10 @@ def _tree(root):
     return sorted(out)
 
 
+class _Timeout(BaseException):
+    pass
+
+
 def probe_image(img, pw, tmp, want_path):
     import py7zr
     from harness import arch
@@ -360,6 +364,8 @@ def probe_image(img, pw, tmp, want_path):
         z = py7zr.SevenZipFile(io.BytesIO(img), "r", password=pw)
     except MemoryError:
         return {"fatal": "memory"}
+    except _Timeout:
+        raise
     except BaseException as e:  # noqa
         out["open"] = _err(e)
         return out
@@ -371,11 +377,15 @@ def probe_image(img, pw, tmp, want_path):
         out["extract"] = ["ok", _digest(fac.as_list())]
     except MemoryError:
         return {"fatal": "memory"}
+    except _Timeout:
+        raise
     except BaseException as e:  # noqa
         out["extract"] = ["err"] + _err(e)
     finally:
         try:
             z.close()
+        except _Timeout:
+            raise
         except BaseException:  # noqa
             pass
     path = os.path.join(tmp, "x.7z")
@@ -388,6 +398,8 @@ def probe_image(img, pw, tmp, want_path):
             out[call] = ["ok", v]
         except MemoryError:
             return {"fatal": "memory"}
+        except _Timeout:
+            raise
         except BaseException as e:  # noqa
             out[call] = ["err"] + _err(e)
     if want_path:
@@ -399,6 +411,8 @@ def probe_image(img, pw, tmp, want_path):
             out["extract_path"] = ["ok", _tree(dest)]
         except MemoryError:
             return {"fatal": "memory"}
+        except _Timeout:
+            raise
         except BaseException as e:  # noqa
             out["extract_path"] = ["err"] + _err(e)
     return out
@@ -461,9 +475,29 @@ def run_forked(fn, timeout, mem_mb):
         return {"fatal": "crash", "msg": "status %d" % status}
 
 
+def run_inproc(fn, timeout):
+    """fn() in this process under an interval timer (the spinning loops of the code under test are Python loops)"""
+    def on_alarm(signum, frame):
+        raise _Timeout()
+    old = signal.signal(signal.SIGALRM, on_alarm)
+    signal.setitimer(signal.ITIMER_REAL, timeout)
+    try:
+        return fn()
+    except _Timeout:
+        return {"fatal": "hang"}
+    except MemoryError:
+        return {"fatal": "memory"}
+    finally:
+        signal.setitimer(signal.ITIMER_REAL, 0)
+        signal.signal(signal.SIGALRM, old)
+
+
 def batch_worker(arg):
-    """sandbox target: arg = {base: hex, pw, muts: [...], timeout, mem_mb, path: bool, budget: seconds}"""
+    """sandbox target: arg = {base: hex, pw, muts: [...], timeout, mem_mb, path: bool, budget: seconds,
+    mode: "inproc" (fast; one process, interval timer per image) | "fork" (one child per image: full isolation)}"""
     import functools
+    import resource
+    import threading
     import py7zr  # noqa
     import py7zr.compressor as comp
     if not hasattr(comp.calculate_key, "cache_info"):
@@ -473,6 +507,7 @@ def batch_worker(arg):
     tmp = tempfile.mkdtemp(prefix="c04b")
     t0 = time.time()
     out = []
+    limited = False
     try:
         try:       # warm lazy imports / caches / the AES key cache (inherited by the forked children)
             probe_image(base, pw, tmp, arg.get("path", False))
@@ -483,8 +518,16 @@ def batch_worker(arg):
                 out.append({"fatal": "skipped"})
                 continue
             img = base if m is None else apply_mut(base, m)
-            out.append(run_forked(lambda: probe_image(img, pw, tmp, arg.get("path", False)), arg.get("timeout", 5),
-                                  arg.get("mem_mb", 1024)))
+            if arg.get("mode", "fork") == "fork":
+                out.append(run_forked(lambda: probe_image(img, pw, tmp, arg.get("path", False)), arg.get("timeout", 5),
+                                      arg.get("mem_mb", 1024)))
+            elif threading.active_count() > 1:
+                out.append({"fatal": "skipped"})            # a worker thread of an interrupted call is still alive
+            else:
+                if not limited and arg.get("mem_mb"):
+                    resource.setrlimit(resource.RLIMIT_AS, (arg["mem_mb"] << 20, arg["mem_mb"] << 20))
+                    limited = True
+                out.append(run_inproc(lambda: probe_image(img, pw, tmp, arg.get("path", False)), arg.get("timeout", 5)))
     finally:
         shutil.rmtree(tmp, ignore_errors=True)
     return out
@@ -628,20 +671,46 @@ def explore(ctx):
     fatal = {}
     results = {}
 
-    def run_job(job):
+    def threaded(a):
+        # several folders + opened by path + no password: py7zr extracts with one thread per folder
+        return a["pw"] is None and len([r for r in a["regs"] if r[2] == "packed"]) > 1
+
+    def run_job(job, mode=None, tmo=None):
         si, ms = job
         a = info[si]
-        arg = {"base": a["base"].hex(), "pw": a["pw"], "muts": ms, "timeout": timeout if a["pw"] is None else 12.0,
+        mode = mode or ("fork" if threaded(a) else "inproc")
+        arg = {"base": a["base"].hex(), "pw": a["pw"], "muts": ms, "timeout": tmo or (timeout if a["pw"] is None else 12.0),
                "mem_mb": 1024, "path": a["spec"].get("path", False) or len([r for r in a["regs"] if r[2] == "packed"]) > 1,
-               "budget": 400}
-        r = run_sandboxed("harness.c04:batch_worker", arg, timeout=520, mem_mb=0)
+               "budget": 400, "mode": mode}
+        r = run_sandboxed("harness.c04:batch_worker", arg, timeout=520 if mode == "fork" else 60 + 3 * len(ms), mem_mb=0)
         if r["status"] != "ok":
             return job, [{"fatal": "batch-" + r["status"], "msg": str(r)[:300]}] * len(ms)
         return job, r["value"]
 
+    t_explore = time.time()
     with ThreadPoolExecutor(max_workers=min(16, os.cpu_count() or 4)) as ex:
         for (si, ms), outs in ex.map(run_job, jobs):
             results.setdefault(si, []).extend(zip(ms, outs))
+        # second pass, full isolation and a longer limit: everything that did not produce an outcome
+        redo = {}
+        for si, rs in results.items():
+            for idx, (m, o) in enumerate(rs):
+                if o.get("fatal") in ("hang", "crash", "skipped") or str(o.get("fatal", "")).startswith("batch-"):
+                    redo.setdefault(si, []).append(idx)
+        jobs2 = []
+        for si, idxs in redo.items():
+            for i in range(0, len(idxs), 8):
+                jobs2.append((si, idxs[i:i + 8]))
+        rep.extra["second_pass_images"] = sum(len(v) for v in redo.values())
+
+        def run_job2(j):
+            si, idxs = j
+            _, outs = run_job((si, [results[si][i][0] for i in idxs]), mode="fork", tmo=4 * timeout if info[si]["pw"] is None else 30.0)
+            return si, idxs, outs
+        for si, idxs, outs in ex.map(run_job2, jobs2):
+            for i, o in zip(idxs, outs):
+                results[si][i] = (results[si][i][0], o)
+    rep.extra["exploration_seconds"] = round(time.time() - t_explore, 1)
     for si, a in enumerate(info):
         spec = a["spec"]
         want_path = a["spec"].get("path", False) or len([r for r in a["regs"] if r[2] == "packed"]) > 1
@@ -707,4 +776,473 @@ def explore(ctx):
         rep.violation("%s while reading a damaged archive (C05's subject) [%d images of %s; region %s, header %s] e.g. mutation %r" % (
             g["mk"]["kind"], g["n"], sorted(g["archives"])[:3], g["mk"]["region"], g["mk"]["header"], f["mutation"]),
             f, match_keys=g["mk"])
+    if ctx.get("model") is not None and "dmg_sig_read" in __import__("vlib").fn_table():
+        corr_open(ctx, rng, info, results)
     return table, viols, fatal
+
+
+# ====================================================================== correspondence: model vs implementation
+ERR_CODE = {"Bad7z": 1, "Crc": 2, "Password": 3, "Unsupported": 4, "Eof": 5, "Other": 6, "Fuel": 7}
+
+
+def err_code(e):
+    from harness import arch
+    if isinstance(e, struct.error):          # class name "error", like zlib.error
+        return ERR_CODE["Other"]
+    return ERR_CODE[arch.exc_class(e)]
+
+
+def impl_sig(img):
+    """_check_7zfile + SignatureHeader._read, as SevenZipFile._real_get_contents calls them"""
+    import py7zr
+    from py7zr.archiveinfo import SignatureHeader
+    from py7zr.exceptions import Bad7zFile
+    from harness import arch
+    fp = io.BytesIO(img)
+    try:
+        if not py7zr.SevenZipFile._check_7zfile(fp):
+            raise Bad7zFile("not a 7z file")
+        s = SignatureHeader.retrieve(fp)
+        return [0, [s.nextheaderofs, s.nextheadersize, s.nextheadercrc]]
+    except Exception as e:  # noqa
+        return [1, err_code(e)]
+
+
+def start_header(ofs, size, crc):
+    f = struct.pack("<QQL", ofs, size, crc)
+    return MAGIC + b"\x00\x04" + struct.pack("<L", zlib.crc32(f)) + f
+
+
+def corr_headers(ctx, rng):
+    """calculate_crc32, start header, next header: model vs implementation"""
+    from py7zr.helpers import calculate_crc32
+    rep, model, tier = ctx["rep"], ctx["model"], ctx["tier"]
+    n = 0
+    for _ in range(150 if tier == "quick" else 1500):
+        data = rng.randbytes(rng.choice([0, 1, 2, 7, 8, 9, 63, 64, 65, 200]))
+        v = rng.choice([0, 1, 0xFFFFFFFF, rng.getrandbits(32)])
+        bs = rng.choice([1, 2, 3, 8, 64, 1000])
+        got = calculate_crc32(data, v, bs)
+        want = model.call("dmg_calculate_crc32", [list(data), v, bs])
+        n += 1
+        rep.count(("crc", data, v, bs), nontrivial=len(data) > bs)
+        if not (got == want == zlib.crc32(data, v)):
+            rep.violation("calculate_crc32(%d bytes, %d, blocksize=%d) = %d, model %d, zlib %d" % (
+                len(data), v, bs, got, want, zlib.crc32(data, v)),
+                {"kind": "calc-crc", "data": data.hex(), "value": v, "blocksize": bs}, match_keys={"kind": "calc-crc"})
+            return
+    # start header: every bit of a valid one, bursts, truncations, arbitrary field values
+    images = []
+    for ofs, size, crc in [(0x51, 0x7B, 0xDEADBEEF), (0, 0, 0), (1 << 40, 5, 1), (rng.getrandbits(62), rng.getrandbits(62), rng.getrandbits(32))]:
+        good = start_header(ofs, size, crc) + b"tail-bytes"
+        images.append(good)
+        images += [apply_mut(good, ["flip", i]) for i in range(8 * 32)]
+        images += [good[:k] for k in range(0, 42)]
+        for _ in range(60 if tier == "quick" else 600):
+            w = rng.choice([2, 8, 17, 32])
+            images.append(apply_mut(good, ["burst", rng.randrange(8 * 32 - w), rng.getrandbits(w) | 1 | (1 << (w - 1))]))
+    for _ in range(200 if tier == "quick" else 3000):
+        images.append(start_header(rng.getrandbits(rng.choice([3, 16, 40, 62])), rng.getrandbits(rng.choice([3, 16, 62])),
+                                   rng.getrandbits(32)) + rng.randbytes(rng.choice([0, 3])))
+    for img in images:
+        got = impl_sig(img)
+        want = model.call("dmg_sig_read", list(img[:40]))
+        n += 1
+        rep.count(("sig", img), nontrivial=True)
+        rep.dist("start_header_model_verdict", "accept" if want[0] == 0 else "reject-%d" % want[1])
+        if got != want:
+            rep.violation("start header %s: implementation %r, model %r" % (img[:32].hex(), got, want),
+                          {"kind": "sig", "image": img.hex()}, match_keys={"kind": "start-header-check"})
+            return
+    rep.extra["correspondence_header_cases"] = n
+
+
+def model_open_verdict(model, img):
+    """(accept?, stage) of sig_read + hdr_read on an image"""
+    s = model.call("dmg_sig_read", list(img[:40]))
+    if s[0] != 0:
+        return False, "start-header"
+    ofs, size, crc = s[1]
+    body = img[32:]
+    h = model.call("dmg_hdr_read", [list(body[ofs:ofs + size]) if ofs < len(body) else [], 0, size, crc])
+    return (h[0] == 0), "next-header"
+
+
+# ---------------------------------------------------------------------- control flow with scripted decoders
+class _FakeFp:
+    def seek(self, *a):
+        return 0
+
+    def tell(self):
+        return 1 << 40
+
+
+class _FakeDecomp:
+    def __init__(self, script):
+        self.script = script
+        self.i = 0
+        self.crc = 0x1234 if script[0] == "foldercrc" else None
+        self.digest = 0
+
+    def decompress(self, fp, max_length=-1):
+        if self.script[0] == "err":
+            raise self.script[1]("scripted decoder error")
+        c = self.script[1][self.i]
+        self.i += 1
+        return c
+
+    def check_crc(self):
+        return False
+
+
+class _FakeFolder:
+    def __init__(self, script):
+        self.script = script
+
+    def get_decompressor(self, compressed_size, reset=False):
+        return _FakeDecomp(self.script)
+
+
+class _FakeFile:
+    is_junction = False
+    compressed = 0
+
+    def __init__(self, d):
+        self.__dict__.update(d)
+
+
+def gen_flow_case(rng):
+    """(shape tree, decs tree, python description)"""
+    import lzma
+    n = rng.choice([0, 1, 2, 3, 4, 5, 6])
+    files, decs = [], []
+    for i in range(n):
+        empty = rng.random() < 0.25
+        data = bytes(rng.choice(b"abcdefgh") for _ in range(rng.choice([0, 1, 2, 5, 9])))
+        symlink = rng.random() < 0.25
+        if symlink and not data:
+            data = b"t"                       # an empty link target is observed as "." (pathlib), not as ""
+        tgt = rng.choice([0, 0, 1, 1, 1, 2, 2])
+        r = rng.random()
+        crc = [] if r < 0.2 else [zlib.crc32(data)] if r < 0.85 else [zlib.crc32(data) ^ 0x10]
+        files.append([i, 1 if empty else 0, crc, 1 if symlink else 0, tgt])
+        r = rng.random()
+        if r < 0.82:
+            chunks, rest = [], data
+            while rest or rng.random() < 0.2:
+                k = rng.randrange(0, len(rest) + 1) if rest else 0
+                if rng.random() < 0.3:
+                    k = len(rest)
+                chunks.append(rest[:k])
+                rest = rest[k:]
+                if len(chunks) > 8:
+                    chunks.append(rest)
+                    break
+            if sum(len(c) for c in chunks) != len(data):
+                chunks.append(data[sum(len(c) for c in chunks):])
+            decs.append([i, 0, [list(c) for c in chunks]])
+        elif r < 0.91:
+            code = rng.choice([1, 5, 6])
+            decs.append([i, 1, code])
+        else:
+            decs.append([i, 2, []])
+    kind = rng.choice([0, 1, 1, 2, 2])
+    folders = []
+    if kind == 2:
+        k = rng.choice([2, 2, 3])
+        data_files = [f for f in files if not f[1]]      # a folder lists its data members only
+        cuts = sorted(rng.randrange(0, len(data_files) + 1) for _ in range(k - 1))
+        prev = 0
+        for c in cuts + [len(data_files)]:
+            folders.append(data_files[prev:c])
+            prev = c
+    if kind == 0:
+        for f in files:
+            pass
+    return [kind, files, folders], decs
+
+
+def run_flow_impl(shape, decs, skip, tmp, call):
+    """the real Worker.extract / SevenZipFile.testzip over scripted decoders; returns the model's outcome encoding"""
+    import lzma
+    import pathlib
+    import types
+    import py7zr
+    from py7zr.exceptions import Bad7zFile, CrcError
+    from py7zr.io import MemIO
+    from py7zr.py7zr import Worker
+    from harness import arch
+    exc_of = {1: Bad7zFile, 5: lzma.LZMAError, 6: OSError}
+    dmap = {d[0]: d for d in decs}
+    objs = {}
+
+    def mk(f):
+        i, empty, crc, symlink, tgt = f
+        if i in objs:
+            return objs[i]
+        d = dmap[i]
+        if d[1] == 0:
+            script = ("ok", [bytes(c) for c in d[2]])
+            size = sum(len(c) for c in script[1])
+        elif d[1] == 1:
+            script = ("err", exc_of[d[2]])
+            size = 3
+        else:
+            script = ("foldercrc", [b"xyz"])
+            size = 3
+        objs[i] = _FakeFile({"id": i, "filename": "f%d" % i, "emptystream": bool(empty), "crc32": crc[0] if crc else None,
+                             "is_symlink": bool(symlink), "folder": _FakeFolder(script), "uncompressed": size})
+        return objs[i]
+
+    kind, files, folders = shape
+    flist = [mk(f) for f in files]
+    if kind == 0:
+        header = types.SimpleNamespace(main_streams=None)
+    else:
+        fl = [types.SimpleNamespace(files=flist)] if kind == 1 else [types.SimpleNamespace(files=[mk(f) for f in fo]) for fo in folders]
+        header = types.SimpleNamespace(main_streams=types.SimpleNamespace(
+            packinfo=types.SimpleNamespace(packpositions=[0] * (len(fl) + 1)),
+            unpackinfo=types.SimpleNamespace(numfolders=len(fl), folders=fl)))
+    name_to_id = {"f%d" % f[0]: f[0] for f in files}
+    root = pathlib.Path(tempfile.mkdtemp(dir=tmp))
+    fac = arch.Collect()
+    try:
+        if call == "testzip":
+            me = types.SimpleNamespace(fp=_FakeFp(), afterheader=0, files=flist, header=header, mp=False, password_protected=True)
+            try:
+                r = py7zr.SevenZipFile.testzip(me)
+            except Exception as e:  # noqa
+                return [2, err_code(e)]
+            if r is None:
+                return [0, []]
+            if r in name_to_id:
+                return [0, [name_to_id[r]]]
+            return [3]
+        w = Worker(flist, 0, header, False)
+        tg = {}
+        for f in files:
+            if f[4] == 1:
+                tg[f[0]] = MemIO("f%d" % f[0], fac)
+            elif f[4] == 2:
+                tg[f[0]] = root.joinpath("f%d" % f[0])
+            w.register_filelike(f[0], tg.get(f[0]))
+        try:
+            w.extract(_FakeFp(), root, parallel=False, skip_notarget=skip)
+        except CrcError as e:
+            return [1, [] if e.args[2] is None else [name_to_id[e.args[2]]]]
+        except Exception as e:  # noqa
+            return [2, err_code(e)]
+        out = []
+        mem = {n: b for n, b in fac.as_list()}
+        for f in files:
+            if f[4] == 1 and "f%d" % f[0] in mem:
+                out.append([f[0], list(mem["f%d" % f[0]])])
+            elif f[4] == 2:
+                p = root.joinpath("f%d" % f[0])
+                if p.is_symlink():
+                    out.append([f[0], list(os.readlink(p).encode())])
+                elif p.exists():
+                    out.append([f[0], list(p.read_bytes())])
+        return [0, sorted(out)]
+    finally:
+        shutil.rmtree(root, ignore_errors=True)
+
+
+def corr_flow(ctx, rng):
+    """Worker.extract/_extract_single/_check/decompress and testzip() against the model, for both variants
+    of the two modelled switches; records which variant the implementation is"""
+    rep, model, tier = ctx["rep"], ctx["model"], ctx["tier"]
+    tmp = tempfile.mkdtemp(prefix="c04f")
+    variant = {"symcheck": None, "tzfolder": None}
+    n = 0
+    try:
+        for _ in range(700 if tier == "quick" else 8000):
+            shape, decs = gen_flow_case(rng)
+            skip = rng.random() < 0.6
+            got = run_flow_impl(shape, decs, skip, tmp, "extract")
+            wants = []
+            for sc in (0, 1):
+                w = model.call("dmg_extract", [sc, 1 if skip else 0, shape, decs])
+                if w[0] == 0:
+                    w = [0, sorted(w[1])]
+                wants.append(w)
+            n += 1
+            rep.count(("flow", json.dumps([shape, decs, skip])), nontrivial=len(shape[1]) > 1)
+            rep.dist("flow_outcome", {0: "done", 1: "CrcError", 2: "other error"}[got[0]])
+            ok = [got == w for w in wants]
+            if wants[0] != wants[1] and any(ok):
+                v = ok[1]
+                if variant["symcheck"] is None:
+                    variant["symcheck"] = v
+                elif variant["symcheck"] != v:
+                    ok = [False, False]
+            if not any(ok):
+                rep.violation("Worker.extract over scripted decoders: implementation %r, model %r (symcheck=false) / %r (true); "
+                              "shape %r decoders %r skip_notarget=%s" % (got, wants[0], wants[1], shape, decs, skip),
+                              {"kind": "flow", "shape": shape, "decs": decs, "skip": skip, "call": "extract"},
+                              concrete=False, match_keys={"kind": "flow-mismatch", "call": "extract"})
+                break
+            got = run_flow_impl(shape, decs, skip, tmp, "testzip")
+            wants = [model.call("dmg_testzip", [tz, shape, decs]) for tz in (0, 1)]
+            ok = [got == w for w in wants]
+            rep.dist("testzip_outcome", {0: "returned", 2: "raised", 3: "flagged"}[got[0]] + ("" if got[0] != 0 else (" None" if got[1] == [] else " name")))
+            if wants[0] != wants[1] and any(ok):
+                v = ok[1]
+                if variant["tzfolder"] is None:
+                    variant["tzfolder"] = v
+                elif variant["tzfolder"] != v:
+                    ok = [False, False]
+            if not any(ok):
+                rep.violation("testzip() over scripted decoders: implementation %r, model %r (unrepaired) / %r (repaired); "
+                              "shape %r decoders %r" % (got, wants[0], wants[1], shape, decs),
+                              {"kind": "flow", "shape": shape, "decs": decs, "skip": False, "call": "testzip"},
+                              concrete=False, match_keys={"kind": "flow-mismatch", "call": "testzip"})
+                break
+    finally:
+        shutil.rmtree(tmp, ignore_errors=True)
+    rep.extra["implementation_variant"] = {
+        "symcheck (symbolic-link branch compares the CRC)": variant["symcheck"],
+        "tzfolder (testzip reports a folder-level CRC error)": variant["tzfolder"],
+        "meaning": "false = the unrepaired code, for which the _refuted theorems are the applicable ones"}
+    rep.extra["correspondence_flow_cases"] = n
+    return variant
+
+
+def corr_test(ctx, rng):
+    """SevenZipFile.test() against test_model"""
+    import types
+    import py7zr
+    rep, model, tier = ctx["rep"], ctx["model"], ctx["tier"]
+    n = 0
+    for _ in range(300 if tier == "quick" else 4000):
+        k = rng.choice([0, 1, 2, 3, 4])
+        sizes = [rng.choice([0, 1, 2, 5, 9, 20]) for _ in range(k)]
+        packpos = rng.choice([0, 0, 1, 3])
+        body = rng.randbytes(packpos + sum(sizes) + rng.choice([0, 2]))
+        if rng.random() < 0.15 and body:
+            body = body[:rng.randrange(len(body))]          # truncated file: short reads
+        defs = [rng.random() < 0.7 for _ in range(k)]
+        crcs, pos = [], packpos
+        for d, sz in zip(defs, sizes):
+            if d:
+                c = zlib.crc32(body[pos:pos + sz])
+                crcs.append(c ^ (0x400 if rng.random() < 0.12 else 0))
+            pos += sz
+        if rng.random() < 0.08 and crcs:
+            crcs.pop()
+        if rng.random() < 0.05 and sizes:
+            sizes.pop()
+        me = types.SimpleNamespace(fp=io.BytesIO(bytes(32) + body), afterheader=32, files=[], mp=False, _block_size=rng.choice([1, 3, 7, 1 << 20]),
+                                   header=types.SimpleNamespace(main_streams=types.SimpleNamespace(packinfo=types.SimpleNamespace(
+                                       crcs=crcs, packpos=packpos, packsizes=sizes, digestdefined=defs))))
+        me._read_digest = types.MethodType(py7zr.SevenZipFile._read_digest, me)
+        try:
+            r = py7zr.SevenZipFile.test(me)
+            got = [0, [] if r is None else [1 if r else 0]]
+        except IndexError:
+            got = [1, 6]
+        want = model.call("dmg_test", [packpos, [1 if d else 0 for d in defs], sizes, crcs, list(body)])
+        n += 1
+        rep.count(("test", packpos, tuple(defs), tuple(sizes), tuple(crcs), body), nontrivial=k > 0)
+        rep.dist("test_outcome", repr(got))
+        if got != want:
+            rep.violation("test(): implementation %r, model %r on packpos=%d defined=%r sizes=%r crcs=%r body=%s" % (
+                got, want, packpos, defs, sizes, crcs, body.hex()),
+                {"kind": "test-flow", "packpos": packpos, "defs": defs, "sizes": sizes, "crcs": crcs, "body": body.hex()},
+                concrete=False, match_keys={"kind": "flow-mismatch", "call": "test"})
+            return
+    rep.extra["correspondence_test_cases"] = n
+
+
+def corr_open(ctx, rng, info, results):
+    """the model's verdict on start header + next header against what open did, on explored images"""
+    rep, model, tier = ctx["rep"], ctx["model"], ctx["tier"]
+    per = 500 if tier == "quick" else 4000
+    n = 0
+    for si, a in enumerate(info):
+        rs = [(m, o) for m, o in results.get(si, []) if m is not None and "fatal" not in o]
+        rng.shuffle(rs)
+        for m, o in rs[:per]:
+            img = apply_mut(a["base"], m)
+            acc, stage = model_open_verdict(model, img)
+            opened = o["open"] == "ok"
+            n += 1
+            bad = None
+            if not acc and opened:
+                bad = "the model rejects at the %s check, the implementation opened the archive" % stage
+            elif not acc and o["open"][0] not in ("Bad7zFile", "error"):
+                bad = "the model rejects at the %s check, the implementation raised %r" % (stage, o["open"])
+            elif acc and not opened and a["hdrmode"] == "raw":
+                bad = "start header and next header pass their CRCs (model), the implementation raised %r" % (o["open"],)
+            if bad:
+                rep.violation("open(): %s; archive %s mutation %r" % (bad, a["spec"]["label"], m),
+                              {"kind": "damage", "spec": a["spec"], "base": a["base"].hex(), "pw": a["pw"], "mutation": m,
+                               "want_path": False, "text": bad}, match_keys={"kind": "open-verdict-mismatch", "stage": stage})
+                return
+    rep.extra["correspondence_open_verdicts"] = n
+
+
+def run(ctx):
+    rep = ctx["rep"]
+    rng = random.Random(ctx["seed"])
+    rep.cov["rule"] = ("archives: py7zr-written (codec families copy/lzma2/deflate/bzip2/zstd/ppmd, +AES, raw/encoded/encrypted header, "
+                       "1 and 3 folders, a symbolic link) and mini7z-written (folder-level CRCs, encoded header with its CRC); per archive: "
+                       "every single-bit flip, every truncation length, byte overwrites, <= 32-bit bursts, packed-area block swaps, "
+                       "insertions/deletions/extensions; each image: open+getnames+extractall(factory)+test()+testzip() (+extractall(path)); "
+                       "distinct by (archive, mutation); plus correspondence cases of the model (headers, control flow, test)")
+    if ctx.get("model") is not None and "dmg_sig_read" in __import__("vlib").fn_table():
+        for part in (corr_headers, corr_flow, corr_test):
+            try:
+                part(ctx, rng)
+            except Exception as e:  # noqa
+                import traceback
+                rep.violation("%s raised %s: %s" % (part.__name__, type(e).__name__, e),
+                              {"kind": "exception", "part": part.__name__, "trace": traceback.format_exc()[-1500:]},
+                              concrete=False, match_keys={"kind": "exception", "part": part.__name__})
+    else:
+        ctx["broken"].append("extracted model without the Damage dispatcher: correspondence not run")
+    explore(ctx)
+
+
+def replay(d):
+    from harness.sandbox import run_sandboxed
+    r = d["replay"]
+    k = r.get("kind")
+    if k == "damage":
+        base = bytes.fromhex(r["base"])
+        arg = {"base": r["base"], "pw": r.get("pw"), "muts": [None, r["mutation"]], "timeout": 20, "mem_mb": 1024,
+               "path": r.get("want_path", False)}
+        out = run_sandboxed("harness.c04:batch_worker", arg, timeout=120, mem_mb=0)
+        if out["status"] != "ok":
+            print("sandbox:", out)
+            return 1
+        pristine, o = out["value"]
+        verdict, detail = judge(o, pristine, r.get("want_path", False))
+        print("archive:", r["spec"]["label"], len(base), "bytes; mutation:", r["mutation"])
+        print("pristine:", json.dumps(pristine)[:600])
+        print("damaged :", json.dumps(o)[:600])
+        print("verdict :", verdict, detail)
+        return 1 if verdict.startswith("VIOL") or verdict in ("hang", "memory", "crash") else 0
+    if k == "calc-crc":
+        from py7zr.helpers import calculate_crc32
+        data = bytes.fromhex(r["data"])
+        got = calculate_crc32(data, r["value"], r["blocksize"])
+        print(got, zlib.crc32(data, r["value"]))
+        return 0 if got == zlib.crc32(data, r["value"]) else 1
+    if k == "sig":
+        img = bytes.fromhex(r["image"])
+        print(impl_sig(img))
+        f = img[12:32]
+        want = [0, list(struct.unpack("<QQL", f))] if img[:6] == MAGIC and len(img) >= 32 and zlib.crc32(f) == struct.unpack("<L", img[8:12])[0] \
+            else [1, 1 if (img[:6] != MAGIC or len(img) >= 32) else 6]
+        print(want)
+        return 0 if impl_sig(img) == want else 1
+    if k == "flow":
+        tmp = tempfile.mkdtemp(prefix="c04r")
+        try:
+            print(run_flow_impl(r["shape"], r["decs"], r["skip"], tmp, r["call"]))
+        finally:
+            shutil.rmtree(tmp, ignore_errors=True)
+        return 2
+    print(json.dumps(r)[:2000])
+    return 2
